@@ -270,7 +270,15 @@ Inductive op :=
 | OSetResid (z : Z) | OSetTopResid (z : Z) | OSetResname (s : string) | OSetName (s : string)
 (* ali.start = fam[j] (side = true) / ali.end = fam[j] (side = false) / = None; run by `step`, which
    resolves j in the family (see step_ali below) *)
-| OAliSet (side : bool) (j : option nat).
+| OAliSet (side : bool) (j : option nat)
+(* mol.copy(new_residues) / mol.deep_copy(new_residues) with residues supplied by fam[j]: mode 0 = the
+   supplier's own Residue objects (`other.residues`, or `[res]` for a Residue handle), mode 1 = a list of
+   Residue copies; for a System handle, the residues of instance i read from the file.  Run by `step`
+   (see step_graft below). *)
+| OCopyWith (deep : bool) (mode : nat) (j : nat) (i : nat)
+(* a setter called with an argument it cannot take (e.g. a list, which has no .shape): raises before
+   anything is written; has no clause in `exec`, hence Err EType on every handle *)
+| OBadArg.
 
 (* what a handle-producing operation hands back *)
 Inductive outkind := NewView | NewCopy | NewDeep.
@@ -459,9 +467,42 @@ Definition step_ali (st : heap * family) (k : nat) (side : bool) (oj : option na
   | None => (st, Err EIndex)
   end.
 
+(* ---- Molecule.copy(new_residues) / deep_copy(new_residues) ---- *)
+Definition graft_residues (src : handle) (mode i : nat) : M (list (list loc)) :=
+  match src with
+  | HM _ _ rs => match mode with O => ret rs | _ => mapMM residue_copy rs end
+  | HR gs => match mode with O => ret [gs] | _ => mapMM residue_copy [gs] end
+  | HS insts =>
+      do inst <- lift (nth_res insts i);
+      mapMM (fun cs => do gs <- gro_alloc_list cs; do _ <- residname_check cs; ret gs) (snd inst)
+  | _ => fail EType
+  end.
+(* Molecule(self._molecule_top[.copy()], new_residues): the constructor copies every residue it is given *)
+Definition graft (deep : bool) (mt : loc) (ts : list loc) (src : handle) (mode i : nat) : M handle :=
+  do rs <- graft_residues src mode i;
+  if deep then do mtts <- mtop_copy mt ts; mol_init (fst mtts) (snd mtts) rs
+  else mol_init mt ts rs.
+
+Definition step_graft (st : heap * family) (k : nat) (deep : bool) (mode j i : nat) : (heap * family) * res unit :=
+  let '(h, fam) := st in
+  match nth_error fam k with
+  | Some (_, tg, HM mt ts _) =>
+      match nth_error fam j with
+      | Some (_, _, src) =>
+          match graft deep mt ts src mode i h with
+          | (h', Ok Y) => ((h', fam ++ [(length fam, (if deep then length fam else tg), Y)]), Ok tt)
+          | (h', Err e) => ((h', fam), Err e)
+          end
+      | None => (st, Err EIndex)
+      end
+  | Some _ => (st, Err EType)
+  | None => (st, Err EIndex)
+  end.
+
 Definition step (st : heap * family) (ko : nat * op) : (heap * family) * res unit :=
   match snd ko with
   | OAliSet side oj => step_ali st (fst ko) side oj
+  | OCopyWith deep mode j i => step_graft st (fst ko) deep mode j i
   | _ => step_plain st ko
   end.
 
